@@ -199,7 +199,15 @@ class Lexer:
 
         # Decimal point
         is_float = False
-        if self._current() == "." and self._peek().isdigit():
+        after_dot = self.source[self.pos + 1 : self.pos + 4]
+        if self._current() == "." and (
+            # "5." and "5.e1" are complete literals; "5.toFixed" is a member access
+            not (after_dot[:1].isalpha() or after_dot[:1] in ("_", "$"))
+            or (
+                after_dot[:1] in ("e", "E")
+                and after_dot[1:].lstrip("+-")[:1].isdigit()
+            )
+        ):
             is_float = True
             self._advance()  # .
             while self._current() and self._current().isdigit():
